@@ -253,7 +253,13 @@ class SexpRenderer:
             sub, args = n[1], n[2]
             rendered = []
             for (kind, _pv), a in zip(sub.params, args):
-                rendered.append(f"(index {a[1].key})" if kind == "ref" else self.e(a))
+                if kind == "ref" and a[0] == "refparam":
+                    # forwarding one's own by-reference parameter: the reference itself is passed on
+                    rendered.append(f"(load {self.cur_sub.params[a[1]][1].key})")
+                elif kind == "ref":
+                    rendered.append(f"(index {a[1].key})")
+                else:
+                    rendered.append(self.e(a))
             return atoms(["call", str(sub.sid)] + rendered)
         if t == "param":
             kind, pv = self.cur_sub.params[n[1]]
@@ -467,7 +473,12 @@ class Builder:
             sub, args = n[1], n[2]
             built = []
             for (kind, _pv), a in zip(sub.params, args):
-                built.append(self.v(a[1]) if kind == "ref" else self.e(a))
+                if kind == "ref" and a[0] == "refparam":
+                    built.append(self.params[a[1]])
+                elif kind == "ref":
+                    built.append(self.v(a[1]))
+                else:
+                    built.append(self.e(a))
             return self.subs[sub.sid](*built)
         if t == "param":
             return self.params[n[1]]
